@@ -49,6 +49,15 @@ LEVEL_NOTE = ('Trusted: inspect.signature(...).bind as the definition of how Pyt
 SCOPE_NAMES = ['s', 't', 'u']
 
 
+def typed(x):
+  """Type-aware, dict-order-insensitive canonical form (1, 1.0 and True are different values)."""
+  if isinstance(x, dict):
+    return ('dict', sorted((repr(k), typed(v)) for k, v in x.items()))
+  if isinstance(x, (list, tuple)):
+    return (type(x).__name__, [typed(v) for v in x])
+  return (type(x).__name__, repr(x))
+
+
 def _probe_call(built, args, kwargs):
   return built.call(args, kwargs)
 
@@ -84,6 +93,15 @@ def check_case(case):
 
   # ---- enter the scope stack -----------------------------------------------------------
   stack = M.ScopeStack()
+  if case.get('failed_entry'):
+    # an attempt to enter an invalid scope name fails and must leave nothing behind
+    for bad in (3, 's/', 't//u', ['s', '1x']):
+      try:
+        with gin.config_scope(bad):
+          raise Violation('invalid-scope-accepted', repr(bad))
+      except (ValueError, TypeError):
+        pass
+    labels.add('failed-scope-entry-before-calls')
   with contextlib.ExitStack() as es:
     for entry in case['entries']:
       es.enter_context(gin.config_scope(entry))
@@ -118,6 +136,11 @@ def check_case(case):
         if rb[2]:
           scope = '/'.join(scope.split('/')[:-1]) if scope else scope     # a proper prefix
         new_value = 'R%d' % rb[1]
+        old_value = model[(scope, param)] if (scope, param) in model else None
+        if type(old_value) is int and rb[1] % 2 == 0:
+          new_value = float(old_value)      # equal under ==, different type: still a new value
+        elif type(old_value) is list and rb[1] % 2 == 0:
+          new_value = tuple(old_value)
         with gin.unlock_config():
           gin.bind_parameter((scope, sel_full, param), new_value)
         model[(scope, param)] = new_value
@@ -149,7 +172,7 @@ def check_case(case):
           require(raised is None, 'unexpected-typeerror',
                   lambda: f'{raised}\nargs={args} kwargs={kwargs} applicable={app} scope={act}')
           got_rec = {k: rec[k] for k in ('named', 'args', 'kw')}
-          require(got_rec == exp, 'arguments-differ',
+          require(got_rec == exp and typed(got_rec) == typed(exp), 'arguments-differ',
                   lambda: f'scope={act} args={args} kwargs={kwargs}\n bindings={sorted(model.items())}'
                           f'\n got  {got_rec}\n model {exp}')
           require(rec['scope'] == '/'.join(act), 'scope-seen-by-body',
@@ -223,7 +246,7 @@ def strategy(draw):
     focus = draw(st.sampled_from(pool))
     for i in range(n):
       param = draw(st.sampled_from([focus]) | st.sampled_from(pool))
-      value = draw(st.just('B%d' % i) | st.just('B%d' % i) | st.just('B%d' % i) |
+      value = draw(st.just('B%d' % i) | st.just('B%d' % i) | st.just(100 + i) | st.just([i, 0]) |
                    st.sampled_from(FALSY))
       bindings.append([draw(scope_st), param, value,
                        draw(st.sampled_from(['str', 'tuple', 'parse', 'block'])),
@@ -257,4 +280,5 @@ def strategy(draw):
     calls.append(call)
   return {'shape': shape, 'entries': entries, 'bindings': bindings, 'calls': calls,
           'finalize': draw(st.integers(0, 2)) == 0,
-          'bind_ambient': draw(st.sampled_from(['', '', 's', 'zz/t']))}
+          'bind_ambient': draw(st.sampled_from(['', '', 's', 'zz/t'])),
+          'failed_entry': draw(st.integers(0, 3)) == 0}
